@@ -111,7 +111,19 @@ def shift(obj, off):
     return obj
 
 
-FAR_SECONDS = [7200, 100000, -30000, 86400 * 3]
+FAR_SECONDS = [7200, 100000, -30000, 86400 * 3, 1_700_000_000, 1_700_000_000, -1_600_000_000]   # ... and epoch-sized stamps
+
+
+def _maxabs(obj):
+    if isinstance(obj, bool):
+        return 0
+    if isinstance(obj, int):
+        return abs(obj)
+    if isinstance(obj, dict):
+        return max([_maxabs(v) for v in obj.values()] + [0])
+    if isinstance(obj, (list, tuple)):
+        return max([_maxabs(v) for v in obj] + [0])
+    return 0
 
 
 def far_copies(rng, cases, keys, count):
@@ -122,7 +134,9 @@ def far_copies(rng, cases, keys, count):
     pool = [c for c in cases if any(c.get(k) for k in keys)]
     for _ in range(min(count, len(pool))):
         c = rng.choice(pool)
-        off = rng.choice(FAR_SECONDS) * REGIMES[c["regime"]]["scale"]
+        # (epoch-sized stamps only on the dyadic grids where doubled ticks still fit a double exactly)
+        secs = rng.choice(FAR_SECONDS if c["regime"] in ("K0", "K1") else FAR_SECONDS[:4])
+        off = secs * REGIMES[c["regime"]]["scale"]
         d = dict(c)
         for k in keys:
             if k in d:
@@ -150,7 +164,7 @@ def big_timeline(rng, regime, n):
 
 def decimal_copies(rng, cases, count, pred=lambda c: True):
     """copies of sampled K0 cases re-read on the decimal grid D1 (one tick = 0.1 s: non-dyadic doubles)"""
-    pool = [c for c in cases if c.get("regime") == "K0" and pred(c)]
+    pool = [c for c in cases if c.get("regime") == "K0" and pred(c) and _maxabs(c) < 10 ** 9]   # (decimal read-back needs room)
     out = []
     for _ in range(min(count, len(pool))):
         d = dict(rng.choice(pool))
@@ -171,7 +185,7 @@ def p3_copies(rng, cases, keys, count, pred=lambda c: True, extra=lambda d: d):
     """copies of sampled K0 cases re-read in regime P3 (set_precision(3), millisecond ticks, decimal values) with every
     bound doubled, so that every length and gap is an even number of ticks (never exactly one tick, where emptiness
     depends on float noise)"""
-    pool = [c for c in cases if c.get("regime") == "K0" and pred(c)]
+    pool = [c for c in cases if c.get("regime") == "K0" and pred(c) and _maxabs(c) < 10 ** 9]   # (decimal read-back needs room)
     out = []
     for _ in range(min(count, len(pool))):
         d = dict(rng.choice(pool))
